@@ -575,9 +575,17 @@ func (w *World) execOne(op Op) {
 			return
 		}
 		var payload string
-		if op.S != "" {
+		switch {
+		case op.O == "nomember" && op.S != "":
+			// a token event without the token member clears the token like a null token
+			payload = `{"tid":` + jstr(op.S) + `}`
+		case op.O == "nomember":
+			payload = `{}`
+		case op.O == "nullpayload":
+			payload = `null`
+		case op.S != "":
 			payload = `{"token":` + op.P + `,"tid":` + jstr(op.S) + `}`
-		} else {
+		default:
 			payload = `{"token":` + op.P + `}`
 		}
 		w.mq.Deliver("conn."+c.CID+".token", []byte(payload))
